@@ -192,7 +192,24 @@ func (s *Session) exportImport(ws map[string]*tracew.Writer, emitX func(Ev)) (nc
 	sort.Strings(differing)
 	// initial validator set = exported active set
 	valsEqual := sameValidators(vals, initRes.Validators)
-	emitX(Ev{"phase": "import", "h": a.Height, "ok": true, "identical": len(differing) == 0, "differing": differing, "valsEqual": valsEqual, "what": "", "err": ""})
+	// every query returns the same answers
+	var wids []uint64
+	if brB, err := project.Bridge(a, s.bridgeAddrID); err == nil {
+		for _, wd := range brB.Wd {
+			wids = append(wids, uint64(wd.ID))
+		}
+	}
+	evms := []string{"0x00000000000000000000000000000000000000a1", "0x1234567890abcdef1234567890abcdef12345678"}
+	qa, qb := project.QueryAnswers(a, wids, evms), project.QueryAnswers(b, wids, evms)
+	qdiff := []string{}
+	for name, va := range qa {
+		if qb[name] != va {
+			qdiff = append(qdiff, name)
+		}
+	}
+	sort.Strings(qdiff)
+	emitX(Ev{"phase": "import", "h": a.Height, "ok": true, "identical": len(differing) == 0, "differing": differing, "valsEqual": valsEqual,
+		"queriesEqual": len(qdiff) == 0, "queriesDiffering": qdiff, "nqueries": len(qa), "what": "", "err": ""})
 	// module-level comparison through the trace specifications
 	relAfter, err := project.Relayer(b)
 	if err != nil {
